@@ -146,7 +146,13 @@ def run(ch, build):
                     ch.violation(desc, dict(detail, what="NaN/Inf where the exact value is %s" % want))
                 elif not math.isinf(v):
                     dv = Decimal(v)
-                    tol = max(abs(want) * Decimal("1e-12"), Decimal("1e-300"))
+                    # float64 evaluation: 1e-12 relative, plus the conditioning of the lineariser at q (the argument itself
+                    # carries a rounding error of a few ulp, which f amplifies by |q f'(q)|: for ln near 1 the result is
+                    # tiny while that absolute error is not)
+                    aq, aw = abs(Decimal(q.numerator) / Decimal(q.denominator)), abs(want)
+                    cond = {1: Decimal(1), 2: Decimal("0.4343"), 3: Decimal("1.4427"), 4: aq * aw, 5: aq * aw * Decimal("2.3026"),
+                            6: aq * aw * Decimal("0.6932"), 7: aw, 8: 2 * aw, 9: 3 * aw, 10: aw / 2, 11: aw / 3}.get(lc, aw)
+                    tol = max(aw * Decimal("1e-12"), cond * Decimal("1e-13"), Decimal("1e-300"))
                     if abs(dv - want) > tol:
                         ch.violation(desc, dict(detail, what="value %r differs from the exact %s" % (v, want)))
         # --- tie with the Coq model ---
